@@ -1,5 +1,5 @@
 import GraphrsModel.ObsComp
 namespace Graphrs
 /-- placeholder while the framework is brought up: replaced by the property theorems -/
-theorem C10_checkEqualSize_empty : checkEqualSize [] 1 [[]] = none := by decide
+theorem C10_reachFix_zero (succ : Nat → List Nat) (l : List Nat) : reachFix succ 0 l = l := rfl
 end Graphrs
